@@ -31,7 +31,7 @@ def run(ctx: Ctx):
         cs = dc.consts(MaxId=8, MaxOps=2, Prios=[1, 5], RelDelays=[0, 1, 2], AbsTimes=[], BadKinds=[], Cmds=CMDS, Bounds=[1, 2, 3, 4],
                        MaxCmds=8, EndT=4, WarmT=2, AllowFaults=True, Strategy=strat)
         for beh in dc.simulate(ctx, f"DEVS faults {strat}", cs, num=ctx.pick(150, 1500), depth=60, seed=ctx.seed + 50 + k):
-            conc = dd.CONCS[bi % 4]
+            conc = dd.CONCS_OFF[bi % len(dd.CONCS_OFF)]
             real_strat = strat if strat == "pause" else ("continue", "warn_continue")[bi % 2]
             csr = dict(cs, Strategy=real_strat)
             nf = sum(1 for _, _, s in beh if s["op"]["a"] == "Exec" and s["op"]["raise"])
@@ -49,7 +49,7 @@ def run(ctx: Ctx):
     n = ctx.pick(250, 3000)
     nfault_runs = 0
     for i in range(n):
-        conc = dd.CONCS[i % 4]
+        conc = dd.CONCS_OFF[i % len(dd.CONCS_OFF)]
         strat = ("continue", "warn_continue", "pause")[i % 3]
         end_t, warm_t = ctx.rng.choice([(4, 2), (6, 0)])
         ctl = dc.random_run(ctx, ctx.rng, conc, end_t, warm_t, strat, cmds=CMDS, ncmds=ctx.rng.choice([3, 6, 10]),
